@@ -17,7 +17,8 @@ fn deques_tagged_rc() {
     deqs.push_back_ao(CacheRegion::MainProbation, KeyHashDate::new(Rc::clone(&k1), 7, None), &mut e1);
     deqs.push_back_ao(CacheRegion::MainProbation, KeyHashDate::new(Rc::clone(&k2), 8, None), &mut e2);
     deqs.push_back_wo(KeyDate::new(Rc::clone(&k1), None), &mut e1);
-    assert!(Rc::strong_count(&k1) == 3 && Rc::strong_count(&k2) == 2);
+    deqs.push_back_wo(KeyDate::new(Rc::clone(&k2), None), &mut e2);
+    assert!(Rc::strong_count(&k1) == 3 && Rc::strong_count(&k2) == 3);
     assert!(e1.last_accessed().is_none());
     if kani::any() {
         deqs.move_to_back_ao(&e1);
@@ -28,6 +29,8 @@ fn deques_tagged_rc() {
     assert!(e1.access_order_q_node().is_none() && e1.write_order_q_node().is_none());
     assert!(*deqs.probation.peek_front().unwrap().element.key == 2);
     assert!(Rc::strong_count(&k1) == 1);
+    // invalidate_all: every list, the write-order list included, is emptied and every node released
     deqs.clear();
     assert!(Rc::strong_count(&k2) == 1);
+    assert!(deqs.probation.peek_front().is_none() && deqs.write_order.peek_front().is_none());
 }
